@@ -33,7 +33,8 @@ def disable_aslr() -> bool:
 
 def base_env(hashseed: str = "0", hook: bool = True) -> dict[str, str]:
     env = {k: v for k, v in os.environ.items()
-           if k in ("PATH", "HOME", "LANG", "LC_ALL", "TMPDIR", "VERIF_REPO", "VERIF_TMP")}
+           if k in ("PATH", "HOME", "LANG", "LC_ALL", "TMPDIR", "VERIF_REPO", "VERIF_TMP",
+                    "VERIF_IMMORTAL")}
     env["PYTHONHASHSEED"] = hashseed
     env["PYTHONDONTWRITEBYTECODE"] = "1"
     env["PYTHONPATH"] = os.pathsep.join([
